@@ -137,7 +137,8 @@ def run_chain(ctx, chain, tag, upto=None, final_end=None):
         if final_end is not None and i == len(gens) - 1:
             end = final_end
         spec = {"file": path, "mode": g["mode"], "seed": gen_seed(chain, i), "phases": g["phases"],
-                "end": end, "out": out, "big": g.get("big", True), "kill": True}
+                "end": end, "out": out, "big": g.get("big", True), "kill": True,
+                "compression": g.get("compression")}
         rc, err = _run_py(ctx, spec, "%s.g%d" % (tag, i))
         o = _load(out)
         if o is None:
@@ -163,7 +164,14 @@ def run_chain(ctx, chain, tag, upto=None, final_end=None):
     return recs
 
 
-def gen_chain(rng, quick, n_gens=None):
+FILE_COMPRESSIONS = ["No", "DeflateNormal", "Auto", None]     # File.open(..., compression=…); None = omitted
+# (file-level compression, end of the first generation) pairs every run covers with its first chains, so that a
+# defect tied to how the file was *created* meets both a flush-ended and a close-ended first writer
+STRATA = [("DeflateNormal", "flush"), ("No", "flush"), ("Auto", "flush"), ("DeflateNormal", "close"),
+          ("No", "exit"), ("Auto", "close"), ("DeflateNormal", "exit_exc"), (None, "flush_flush")]
+
+
+def gen_chain(rng, quick, n_gens=None, stratum=None):
     n = n_gens if n_gens is not None else rng.choice([1, 2, 3, 3, 4])
     gens = []
     for i in range(n):
@@ -178,7 +186,10 @@ def gen_chain(rng, quick, n_gens=None):
             hi = 18 if quick else 30
             phases = [rng.randrange(4, hi) for _ in range(k)]
         gens.append({"mode": mode, "phases": phases, "end": rng.choice(ENDS),
-                     "big": rng.random() < (0.35 if quick else 0.5)})
+                     "big": rng.random() < (0.35 if quick else 0.5),
+                     "compression": rng.choice(FILE_COMPRESSIONS)})
+    if stratum is not None:
+        gens[0]["compression"], gens[0]["end"] = stratum
     return {"kind": "chain", "seed": rng.randrange(10 ** 9), "gens": gens}
 
 
@@ -201,6 +212,8 @@ def check_generation(chain, i, rec):
             "close": "nixio/file.py:File.close", "exit": "nixio/file.py:File.__exit__",
             "exit_exc": "nixio/file.py:File.__exit__"}.get(end, "nixio/file.py")
     inp = {"kind": "chain", "seed": chain["seed"], "gens": chain["gens"][:i + 1], "generation": i}
+    if out.get("open_error") and i == 0:
+        return None          # nothing was flushed before: not this property (shows up as a disagreement)
     if out.get("open_error"):
         return Failure("a file flushed/closed by the previous writer and killed cannot be opened by the next "
                        "writer", inp, {"open_error": out["open_error"], "mode": rec["spec"]["mode"]},
@@ -471,6 +484,11 @@ def _tally(dist, recs, chain):
     for g, rec in zip(chain["gens"], recs):
         dist["ends"][rec["end"]] = dist["ends"].get(rec["end"], 0) + 1
         dist["modes"][g["mode"]] = dist["modes"].get(g["mode"], 0) + 1
+        fc = "%s/%s" % (g.get("compression"), g["mode"])
+        dist["file_compression_by_mode"][fc] = dist["file_compression_by_mode"].get(fc, 0) + 1
+        for op in rec["out"]["ops"]:
+            if op[0] == "create_block":
+                dist["block_compression"][op[2]] = dist["block_compression"].get(op[2], 0) + 1
         for op in rec["out"]["ops"]:
             nm = op[0] if op[0] != "refused" else "refused:" + op[1]
             dist["ops"][nm] = dist["ops"].get(nm, 0) + 1
@@ -499,8 +517,11 @@ def correspondence(ctx):
     changed = anchors_changed()
     target_kills = ctx.budget(60 if changed else 20, 170)
     kills = sum(len(c["gens"]) for c in chains)
-    while kills < target_kills:
-        c = gen_chain(rng, quick)
+    strata = list(STRATA)
+    rng.shuffle(strata)
+    while kills < target_kills or strata:
+        c = gen_chain(rng, quick, stratum=strata.pop() if strata else None,
+                      n_gens=rng.choice([1, 2, 2, 3]) if strata else None)
         chains.append(c)
         kills += len(c["gens"])
     for _ in range(ctx.budget(150, 2000)):
@@ -523,7 +544,7 @@ def correspondence(ctx):
     model = core.run_driver(PROP, cases)
 
     disagreements = []
-    dist = {"ends": {}, "modes": {}, "ops": {}, "entities": {}, "arrays": {}, "append_rounds": 0,
+    dist = {"file_compression_by_mode": {}, "block_compression": {}, "ends": {}, "modes": {}, "ops": {}, "entities": {}, "arrays": {}, "append_rounds": 0,
             "max_array_elements": 0, "session_events": {}, "session_impl_errors": 0}
     seen = set()
     samples = []
@@ -586,7 +607,7 @@ def negative_control(ctx, chains):
         out = ctx.tmpfile("%s.out.json" % tag)
         g = chain["gens"][0]
         spec = {"file": path, "mode": "w", "seed": gen_seed(chain, 0), "phases": g["phases"], "end": "none",
-                "out": out, "big": g.get("big", True), "kill": True}
+                "out": out, "big": g.get("big", True), "kill": True, "compression": g.get("compression")}
         rc, err = _run_py(ctx, spec, tag)
         o = _load(out)
         if o is None or rc != -9:
@@ -629,7 +650,8 @@ def oracle(ctx, broken, hints):
     kills = 0
     own = []
     while kills < n_own:
-        c = gen_chain(rng, quick, n_gens=rng.choice([1, 1, 2]))
+        c = gen_chain(rng, quick, n_gens=rng.choice([1, 1, 2]),
+                      stratum=(FILE_COMPRESSIONS[len(own) % 3], rng.choice(["flush", "flush", "close", "flush_flush"])))
         own.append(c)
         kills += len(c["gens"])
     chains += own
